@@ -277,7 +277,9 @@ func buildC20Configs() []c20cfg {
 		out = append(out, c20cfg{kind: spec.Slice, elem: intElem, test: spec.Test{Op: spec.TContains, Arg: p}, subjects: intSets, name: fmt.Sprintf("Slice(Int).Contains(%#v)", p)})
 	}
 	f64Elem := &spec.Node{Kind: spec.Float64}
-	fSets := func(core.Tier) []any { return []any{[]float64{math.NaN()}, []float64{1.5, 0}, []float64{math.Copysign(0, -1)}} }
+	fSets := func(core.Tier) []any {
+		return []any{[]float64{math.NaN()}, []float64{1.5, 0}, []float64{math.Copysign(0, -1)}}
+	}
 	for _, p := range []any{math.NaN(), 1.5, 0.0} {
 		out = append(out, c20cfg{kind: spec.Slice, elem: f64Elem, test: spec.Test{Op: spec.TContains, Arg: p}, subjects: fSets, name: fmt.Sprintf("Slice(Float64).Contains(%v)", p)})
 	}
